@@ -17,8 +17,8 @@ pub fn prop() -> Prop {
         ],
         subs: vec![
             Sub::enumerate("grid", grid),
-            Sub::tape("random", 10, 200_000, 10_000_000, random),
-            Sub::tape("very_long", 10, 3_000, 150_000, very_long),
+            Sub::tape("random", 20, 200_000, 10_000_000, random),
+            Sub::tape("very_long", 24, 3_000, 150_000, very_long),
         ],
     }
 }
